@@ -540,7 +540,7 @@ func ruleC20R4(w *World, r *Report) {
 
 func ruleC20R5(w *World, r *Report) {
 	const rule = "C20/R5"
-	r.rule(rule, "every excerpt line of (*File).Position is Buffer[lines[l] : lines[l+1]-1] with l the resolved line or a counter running from the resolved line up to the resolved end line by one, and is numbered l+1", 2)
+	r.rule(rule, "every excerpt line of (*File).Position is Buffer[lines[l] : lines[l+1]-1] with l the resolved line or a counter running from the resolved line up to the resolved end line by one, and is numbered l+1; the line break between excerpt lines is written for every line after the first one of the excerpt", 3)
 	pf, resolve, _, _ := w.c20Funcs(r)
 	if pf == nil {
 		return
@@ -657,5 +657,43 @@ func ruleC20R5(w *World, r *Report) {
 	}
 	if n < 2 {
 		r.errorf("expected the two excerpt slices of (*File).Position (single line, several lines), found %d", n)
+	}
+	// the separator between excerpt lines: a line break in front of every line but the first of the excerpt
+	for _, b := range pf.Blocks {
+		for _, in := range b.Instrs {
+			c, ok := in.(*ssa.Call)
+			if !ok {
+				continue
+			}
+			sc := c.Call.StaticCallee()
+			if sc == nil || sc.Pkg == nil || sc.Pkg.Pkg.Path() != "fmt" || sc.Name() != "Fprintln" || len(varargOperands(c)) != 0 {
+				continue
+			}
+			construct := "separator between excerpt lines"
+			// the guard of this block
+			var cond *ssa.BinOp
+			if len(b.Preds) == 1 {
+				if iff, ok := b.Preds[0].Instrs[len(b.Preds[0].Instrs)-1].(*ssa.If); ok && b.Preds[0].Succs[0] == b {
+					cond, _ = iff.Cond.(*ssa.BinOp)
+				}
+			}
+			phi, _ := func() (*ssa.Phi, bool) {
+				if cond == nil {
+					return nil, false
+				}
+				p, ok := cond.X.(*ssa.Phi)
+				return p, ok
+			}()
+			switch {
+			case cond == nil || phi == nil:
+				r.undecided(rule, construct, w.pos(c.Pos()), "the line break is not written under a test of the line counter")
+			case cond.Op == token.GTR && resLine(cond.Y, pos):
+				r.ok(rule, construct, w.pos(c.Pos()), "a line break in front of every line after the resolved first line")
+			case cond.Op == token.NEQ && resLine(cond.Y, pos):
+				r.ok(rule, construct, w.pos(c.Pos()), "a line break in front of every line but the resolved first line")
+			default:
+				r.bad(rule, construct, w.pos(c.Pos()), "the line break between excerpt lines is written under `"+cond.X.Name()+" "+cond.Op.String()+" "+cond.Y.String()+"`, not for every line after the first line of the excerpt: an excerpt that does not start on line 1 begins with an empty line that is not in the source")
+			}
+		}
 	}
 }
